@@ -92,10 +92,12 @@ impl Counter {
         }
     }
 
-    /// Increment counter by 1 and return true when hitting limit
+    /// Increment counter by 1 and return false when the limit is reached or exceeded
     #[inline(always)]
     pub(crate) fn inc(&self) -> bool {
-        self.counter.fetch_add(1, Ordering::Relaxed) != self.limit
+        // a connection that had to be sent to a worker already at its limit (no other worker was
+        // left after a fault) must not make the worker look available again.
+        self.counter.fetch_add(1, Ordering::Relaxed) < self.limit
     }
 
     /// Decrement counter by 1 and return true if crossing limit.
